@@ -8,9 +8,9 @@ class that ran.
 from __future__ import annotations
 
 import ast
-from typing import Dict, List, Optional, Set, Tuple
+from typing import Callable, Dict, List, Optional, Set, Tuple
 
-from ..cfg import CFG
+from ..cfg import CFG, reaching_defs
 from ..engine import (
     AnalysisError,
     FuncNode,
@@ -21,12 +21,16 @@ from ..engine import (
     call_name,
     calls_in,
     dotted_name,
+    is_const,
     kwarg,
     norm,
+    parent,
     qualname_of,
     stmt_of,
     walk_no_nested,
 )
+from ..normal import clone, nfunc
+from ..pat import find1, name_of
 from ..report import Report
 from ._orch import ORCH, EXECUTE
 
@@ -71,6 +75,297 @@ def z_labelled(fn: ast.AST) -> List[ast.AST]:
         if isinstance(n, ast.Call) and call_attr(n) == "strftime" and n.args and isinstance(n.args[0], ast.Constant) and isinstance(n.args[0].value, str) and n.args[0].value.endswith("Z"):
             out.append(n)
     return out
+
+
+# ---------------------------------------------------------------------------------------------------------
+# generic helpers: value expansion through single-definition locals, dominating conditions, key-set algebra
+# ---------------------------------------------------------------------------------------------------------
+
+_MUT = {"append", "extend", "insert", "add", "update", "setdefault", "pop", "popitem", "remove", "discard", "clear", "sort", "reverse"}
+KEEP = (
+    "_type_check_entry", "_extract_context_delta_lists", "_normalize_expected", "_format_expected_type", "_parameter_defaults",
+    "_data_summary", "_context_summary", "_iso_now", "_context_snapshot", "_stable_equal", "_processor_config_for",
+    "_infer_context_parameters", "_required_keys_for", "_normalize_keys", "_now_timestamp",
+)
+
+
+def pos_params(fn: ast.AST) -> List[str]:
+    """Positional parameter names without the receiver."""
+    p = [a.arg for a in fn.args.posonlyargs + fn.args.args]
+    return p[1:] if p and p[0] in ("self", "cls") else p
+
+
+def all_params(fn: ast.AST) -> Set[str]:
+    a = fn.args
+    out = {x.arg for x in a.posonlyargs + a.args + a.kwonlyargs}
+    if a.vararg:
+        out.add(a.vararg.arg)
+    if a.kwarg:
+        out.add(a.kwarg.arg)
+    return out
+
+
+def bind_args(call: ast.Call, fn: ast.AST) -> Dict[str, ast.AST]:
+    """Parameter name -> argument expression of *call* for callee *fn* (receiver skipped)."""
+    out: Dict[str, ast.AST] = {}
+    pp = pos_params(fn)
+    for i, a in enumerate(call.args):
+        if isinstance(a, ast.Starred):
+            break
+        if i < len(pp):
+            out[pp[i]] = a
+    for kw in call.keywords:
+        if kw.arg:
+            out[kw.arg] = kw.value
+    return out
+
+
+def _def_table(fn: ast.AST) -> Tuple[Dict[str, ast.AST], Dict[str, List[ast.AST]]]:
+    """(single, every): *single* maps a local bound exactly once, by a plain (or unpacking) assignment, and never
+    mutated in place, to the expression it names; *every* maps each local to all expressions assigned to it."""
+    cached = getattr(fn, "_c07_defs", None)
+    if cached is not None:
+        return cached
+    stores: Dict[str, int] = {}
+    every: Dict[str, List[ast.AST]] = {}
+    mutated: Set[str] = set()
+
+    def root(e: ast.AST) -> Optional[str]:
+        while isinstance(e, (ast.Subscript, ast.Attribute)):
+            e = e.value
+        return e.id if isinstance(e, ast.Name) else None
+
+    for n in walk_no_nested(fn):
+        if isinstance(n, ast.Name) and isinstance(n.ctx, (ast.Store, ast.Del)):
+            stores[n.id] = stores.get(n.id, 0) + 1
+        elif isinstance(n, ast.ExceptHandler) and n.name:
+            stores[n.name] = stores.get(n.name, 0) + 1
+        if isinstance(n, (ast.Subscript, ast.Attribute)) and isinstance(n.ctx, (ast.Store, ast.Del)):
+            r = root(n.value)
+            if r:
+                mutated.add(r)
+        if isinstance(n, ast.Call) and isinstance(n.func, ast.Attribute) and n.func.attr in _MUT:
+            r = root(n.func.value)
+            if r:
+                mutated.add(r)
+        if isinstance(n, ast.AugAssign):
+            r = root(n.target)
+            if r:
+                mutated.add(r)
+        pairs: List[Tuple[ast.AST, ast.AST]] = []
+        if isinstance(n, ast.Assign):
+            pairs = [(t, n.value) for t in n.targets]
+        elif isinstance(n, ast.AnnAssign) and n.value is not None:
+            pairs = [(n.target, n.value)]
+        for t, v in pairs:
+            if isinstance(t, ast.Name):
+                every.setdefault(t.id, []).append(v)
+            elif isinstance(t, (ast.Tuple, ast.List)):
+                for i, e in enumerate(t.elts):
+                    if isinstance(e, ast.Name):
+                        if isinstance(v, (ast.Tuple, ast.List)) and len(v.elts) == len(t.elts) and not any(isinstance(x, ast.Starred) for x in v.elts):
+                            every.setdefault(e.id, []).append(v.elts[i])
+                        else:
+                            every.setdefault(e.id, []).append(ast.Subscript(value=v, slice=ast.Constant(value=i), ctx=ast.Load()))
+    params = all_params(fn)
+    # names rebound inside nested defs (nonlocal) are left alone
+    for n in ast.walk(fn):
+        if isinstance(n, (ast.Nonlocal, ast.Global)):
+            mutated |= set(n.names)
+    single = {k: v[0] for k, v in every.items() if len(v) == 1 and stores.get(k, 0) == 1 and k not in params and k not in mutated}
+    fn._c07_defs = (single, every)  # type: ignore[attr-defined]
+    return single, every
+
+
+def expand(fn: ast.AST, e: Optional[ast.AST]) -> Optional[ast.AST]:
+    """*e* with every single-definition local of *fn* replaced (recursively) by the expression it names."""
+    if e is None:
+        return None
+    single, _every = _def_table(fn)
+
+    class X(ast.NodeTransformer):
+        def __init__(self) -> None:
+            self.stack: List[str] = []
+
+        def visit_Name(self, n: ast.Name):
+            if isinstance(n.ctx, ast.Load) and n.id in single and n.id not in self.stack and len(self.stack) < 12:
+                self.stack.append(n.id)
+                new = self.visit(clone(single[n.id]))
+                self.stack.pop()
+                return new
+            return n
+
+    return X().visit(clone(e))
+
+
+def closure(fn: ast.AST, e: Optional[ast.AST]) -> List[ast.AST]:
+    """*e* and every expression assigned (anywhere in *fn*) to a local that *e* transitively reads."""
+    if e is None:
+        return []
+    _single, every = _def_table(fn)
+    out = [e]
+    seen: Set[str] = set()
+    todo = [e]
+    while todo:
+        x = todo.pop()
+        for nm in {y.id for y in ast.walk(x) if isinstance(y, ast.Name)}:
+            if nm in seen:
+                continue
+            seen.add(nm)
+            for v in every.get(nm, []):
+                out.append(v)
+                todo.append(v)
+    return out
+
+
+def closure_text(fn: ast.AST, e: Optional[ast.AST]) -> str:
+    return " ;; ".join(ast.unparse(x) for x in closure(fn, e))
+
+
+def alpha(e: ast.AST) -> ast.AST:
+    """Comprehension variables renamed to _k0, _k1, ... so that texts compare independent of their spelling."""
+    e = clone(e)
+    n = 0
+    for comp in [c for c in ast.walk(e) if isinstance(c, (ast.ListComp, ast.SetComp, ast.GeneratorExp, ast.DictComp))]:
+        for gen in comp.generators:
+            for t in [x for x in ast.walk(gen.target) if isinstance(x, ast.Name)]:
+                old, new = t.id, f"_k{n}"
+                n += 1
+                for x in ast.walk(comp):
+                    if isinstance(x, ast.Name) and x.id == old:
+                        x.id = new
+    return e
+
+
+def txt(e: Optional[ast.AST]) -> str:
+    if e is None:
+        return "<none>"
+    s = ast.unparse(alpha(e))
+    return s
+
+
+_FLIP = {ast.In: ast.NotIn, ast.NotIn: ast.In, ast.Is: ast.IsNot, ast.IsNot: ast.Is, ast.Eq: ast.NotEq, ast.NotEq: ast.Eq}
+
+
+def conjuncts(e: ast.AST, positive: bool = True) -> List[ast.AST]:
+    """Atomic conditions that all hold when *e* is true (positive) / false (not positive)."""
+    if isinstance(e, ast.UnaryOp) and isinstance(e.op, ast.Not):
+        return conjuncts(e.operand, not positive)
+    if isinstance(e, ast.BoolOp) and isinstance(e.op, ast.And if positive else ast.Or):
+        return [c for v in e.values for c in conjuncts(v, positive)]
+    if positive:
+        return [e]
+    if isinstance(e, ast.Compare) and len(e.ops) == 1 and type(e.ops[0]) in _FLIP:
+        return [ast.Compare(left=e.left, ops=[_FLIP[type(e.ops[0])]()], comparators=e.comparators)]
+    return [ast.UnaryOp(op=ast.Not(), operand=e)]
+
+
+def dominating_conditions(g: CFG, fn: ast.AST, target: int) -> List[ast.AST]:
+    """Atomic conditions (locals expanded) guaranteed on every path from the entry of *g* to node *target*."""
+    out: List[ast.AST] = []
+    for n in g.nodes:
+        if n.kind != "if" or n.part is None:
+            continue
+        for lab in ("T", "F"):
+            if any(l == lab for _t, l in g.succ[n.id]) and g.dominated_by_edge(target, n.id, lab):
+                out.extend(conjuncts(expand(fn, n.part), lab == "T"))
+    return out
+
+
+# key-set algebra --------------------------------------------------------------------------------------------
+_TRANSPARENT = {"set", "list", "sorted", "tuple", "frozenset", "iter", "reversed"}
+
+
+def _flat(op: str, parts: List[tuple]) -> tuple:
+    items: Set[tuple] = set()
+    for p in parts:
+        if p[0] == op:
+            items |= set(p[1])
+        else:
+            items.add(p)
+    return next(iter(items)) if len(items) == 1 else (op, frozenset(items))
+
+
+def kterm(e: ast.AST, atom: Callable[[ast.AST], Optional[str]]) -> tuple:
+    """Symbolic set of keys denoted by *e*: ('K', role) | ('diff', a, b) | ('and', {..}) | ('or', {..}) |
+    ('filter', base, {condition texts over _k}) | ('?', text).  Ordering and container type are ignored."""
+    a = atom(e)
+    if a is not None:
+        return ("K", a)
+    if isinstance(e, ast.Call):
+        f = e.func
+        if isinstance(f, ast.Name) and f.id in _TRANSPARENT and len(e.args) == 1:
+            return kterm(e.args[0], atom)
+        if isinstance(f, ast.Attribute):
+            if f.attr in ("keys", "copy") and not e.args:
+                return kterm(f.value, atom)
+            if f.attr == "difference" and e.args:
+                return ("diff", kterm(f.value, atom), _flat("or", [kterm(x, atom) for x in e.args]))
+            if f.attr == "intersection" and e.args:
+                return _flat("and", [kterm(f.value, atom)] + [kterm(x, atom) for x in e.args])
+            if f.attr == "union" and e.args:
+                return _flat("or", [kterm(f.value, atom)] + [kterm(x, atom) for x in e.args])
+    if isinstance(e, ast.BinOp):
+        if isinstance(e.op, ast.Sub):
+            return ("diff", kterm(e.left, atom), kterm(e.right, atom))
+        if isinstance(e.op, ast.BitAnd):
+            return _flat("and", [kterm(e.left, atom), kterm(e.right, atom)])
+        if isinstance(e.op, (ast.BitOr, ast.Add)):
+            return _flat("or", [kterm(e.left, atom), kterm(e.right, atom)])
+    if isinstance(e, ast.BoolOp) and isinstance(e.op, ast.Or) and len(e.values) == 2:
+        last = e.values[1]
+        if (isinstance(last, (ast.List, ast.Tuple, ast.Set)) and not last.elts) or (isinstance(last, ast.Dict) and not last.keys) or (isinstance(last, ast.Call) and isinstance(last.func, ast.Name) and last.func.id in ("list", "set", "tuple", "dict") and not last.args):
+            return kterm(e.values[0], atom)
+    if isinstance(e, (ast.List, ast.Tuple)) and e.elts and all(isinstance(x, ast.Starred) for x in e.elts):
+        return _flat("or", [kterm(x.value, atom) for x in e.elts])
+    if isinstance(e, (ast.ListComp, ast.SetComp, ast.GeneratorExp)) and len(e.generators) == 1:
+        gen = e.generators[0]
+        if isinstance(gen.target, ast.Name) and isinstance(e.elt, ast.Name) and e.elt.id == gen.target.id:
+            k = gen.target.id
+            base = kterm(gen.iter, atom)
+            filters: Set[str] = set()
+            for c in [c for t in gen.ifs for c in conjuncts(t, True)]:
+                if isinstance(c, ast.Compare) and len(c.ops) == 1 and isinstance(c.left, ast.Name) and c.left.id == k and isinstance(c.ops[0], (ast.In, ast.NotIn)):
+                    other = kterm(c.comparators[0], atom)
+                    base = _flat("and", [base, other]) if isinstance(c.ops[0], ast.In) else ("diff", base, other)
+                else:
+                    cc = clone(c)
+                    for x in ast.walk(cc):
+                        if isinstance(x, ast.Name) and x.id == k:
+                            x.id = "_k"
+                    filters.add(ast.unparse(cc))
+            return ("filter", base, frozenset(filters)) if filters else base
+    return ("?", ast.unparse(e))
+
+
+def kshow(t: tuple) -> str:
+    if t[0] == "K":
+        return f"keys({t[1]})"
+    if t[0] == "diff":
+        return f"({kshow(t[1])} - {kshow(t[2])})"
+    if t[0] in ("and", "or"):
+        return "(" + (" & " if t[0] == "and" else " | ").join(sorted(kshow(x) for x in t[1])) + ")"
+    if t[0] == "filter":
+        return f"{{k in {kshow(t[1])} if {' and '.join(sorted(t[2]))}}}"
+    return f"<{t[1]}>"
+
+
+def is_sorted_expr(e: Optional[ast.AST]) -> bool:
+    while isinstance(e, ast.Call) and isinstance(e.func, ast.Name) and e.func.id in ("list", "tuple") and len(e.args) == 1:
+        e = e.args[0]
+    return isinstance(e, ast.Call) and isinstance(e.func, ast.Name) and e.func.id == "sorted" and not any(k.arg == "reverse" for k in e.keywords)
+
+
+def name_atoms(mapping: Dict[str, str]) -> Callable[[ast.AST], Optional[str]]:
+    return lambda e: mapping.get(e.id) if isinstance(e, ast.Name) else None
+
+
+def dict_entry(d: ast.AST, key: str) -> Optional[ast.AST]:
+    if isinstance(d, ast.Dict):
+        for k, v in zip(d.keys, d.values):
+            if isinstance(k, ast.Constant) and k.value == key:
+                return v
+    return None
 
 
 def run(repo: Repo, R: Report) -> None:
@@ -142,150 +437,364 @@ def run(repo: Repo, R: Report) -> None:
         ok = bool(ts) and all(isinstance(v, ast.Call) and call_attr(v) in producers for v in ts)
         R.check(ok, r_utc, JSONL, qn, "record.timestamp from the UTC producer", "lifecycle record timestamp is not produced by the UTC timestamp helper", f.lineno)
 
-    # ------------------------------------------------------------------ D2 provenance
-    r_prov = R.rule("C07-D2-parameter-provenance", "the SER labels every processing parameter with the channel the run-time chain picks: node config, else context (for every processing parameter name, not only required ones), else the processor's declared default; later steps never overwrite earlier ones", 6)
-    rp = repo.func(ORCH, O + "_resolve_params_with_sources")
-    stores = [n for n in walk_no_nested(rp) if isinstance(n, ast.Assign) and any(isinstance(t, ast.Subscript) and dotted_name(t.value) == "source_out" for t in n.targets)]
-    order = []
-    for s in stores:
-        lab = s.value.value if isinstance(s.value, ast.Constant) else None
-        loop = next((a for a in ancestors(s) if isinstance(a, ast.For)), None)
-        guards = [a for a in ancestors(s) if isinstance(a, ast.If)]
-        order.append((s.lineno, lab, loop, guards, s))
-    labels = [o[1] for o in order]
-    first_ctx = labels.index("context") if "context" in labels else -1
-    last_ctx = max((i for i, l in enumerate(labels) if l == "context"), default=-1)
-    first_def = min((i for i, l in enumerate(labels) if l == "default"), default=-1)
-    R.check("node" in labels and first_ctx > labels.index("node") and first_def > last_ctx >= 0, r_prov, ORCH, O + "_resolve_params_with_sources", f"label order {labels}", "labels are not assigned in the order node, context, default", rp.lineno)
-    for _ln, lab, loop, guards, s in order:
-        if lab in ("context", "default"):
-            guarded = any("not in params_out" in ast.unparse(g.test) for g in guards) or any(isinstance(x, ast.If) and "in params_out" in ast.unparse(x.test) and any(isinstance(y, ast.Continue) for y in x.body) for x in (loop.body if loop else []))
-            R.check(guarded, r_prov, ORCH, O + "_resolve_params_with_sources", norm(s) + " [first writer wins]", f"the {lab} step can overwrite a label assigned by a higher-precedence channel", s.lineno)
-        if lab == "context" and loop is not None:
-            it_names = {x.id for x in ast.walk(loop.iter) if isinstance(x, ast.Name)}
-            pn_defs = [v for nm in it_names for v in assigned_value(rp, nm)]
-            covers = any("get_processing_parameter_names" in ast.unparse(v) or any(isinstance(x, ast.Name) and x.id == "name_getter" for x in ast.walk(v)) for v in pn_defs)
-            R.check(covers, r_prov, ORCH, O + "_resolve_params_with_sources", norm(loop) + " [domain]", "the context step does not range over all processing parameter names: a defaulted parameter overridden by context is never labelled `context` (and is missing from processor.parameters)", loop.lineno)
-            present = any("in ctx_view" in ast.unparse(g.test) for g in guards)
-            R.check(present, r_prov, ORCH, O + "_resolve_params_with_sources", norm(s) + " [present in context]", "context label assigned without testing that the key is in the pre-node context", s.lineno)
-    dd = [v for v in assigned_value(rp, "declared_defaults")]
-    R.check(bool(dd) and all(isinstance(v, ast.Call) and call_attr(v) == "_parameter_defaults" for v in dd), r_prov, ORCH, O + "_resolve_params_with_sources", "defaults from _parameter_defaults(node.processor)", "the default step does not read the processor's declared parameter table", rp.lineno)
-    # values recorded come from the matching channel
-    for _ln, lab, loop, guards, s in order:
-        blk_assigns = [n for n in ast.walk(loop if loop else rp) if isinstance(n, ast.Assign) and any(isinstance(t, ast.Subscript) and dotted_name(t.value) == "params_out" for t in n.targets)]
-        near = [b for b in blk_assigns if abs(b.lineno - s.lineno) <= 2]
-        if lab == "context":
-            R.check(bool(near) and all("ctx_view" in ast.unparse(b.value) for b in near), r_prov, ORCH, O + "_resolve_params_with_sources", "context value = ctx_view[k]", "the value recorded for a context-sourced parameter is not read from the pre-node context", s.lineno)
-    # call site passes the pre-node snapshot
-    call = next((c for c in calls_in(ex) if call_attr(c) == "_resolve_params_with_sources"), None)
-    ok = call is not None and len(call.args) >= 3 and dotted_name(call.args[2]) == "pre_ctx_view" and dotted_name(call.args[0]) == "node"
-    R.check(ok, r_prov, ORCH, EXECUTE, "_resolve_params_with_sources(node, node_def, pre_ctx_view, ...)", "provenance is not reconstructed from this node and its pre-node context", ex.lineno)
-
-    # ------------------------------------------------------------------ D3 checks
-    r_chk = R.rule("C07-D3-check-polarity", "built-in checks report PASS exactly when the condition holds, on the right inputs (pre snapshot / input data, post snapshot / output data)", 8)
-    pre = repo.func(ORCH, O + "_build_pre_checks")
-    post = repo.func(ORCH, O + "_build_post_checks")
-    tce = repo.func(ORCH, O + "_type_check_entry")
-
-    def pass_iff_empty(fn, var, label):
-        hits = [n for n in ast.walk(fn) if isinstance(n, ast.IfExp) and isinstance(n.body, ast.Constant) and n.body.value == "PASS"]
-        good = [h for h in hits if isinstance(h.test, ast.UnaryOp) and isinstance(h.test.op, ast.Not) and dotted_name(h.test.operand) == var and isinstance(h.orelse, ast.Constant) and h.orelse.value == "FAIL"]
-        R.check(bool(good), r_chk, ORCH, qualname_of(fn), f"{label}: 'PASS' if not {var} else 'FAIL'", f"{label} does not report PASS exactly when `{var}` is empty", fn.lineno)
-
-    pass_iff_empty(pre, "missing", "required_keys_present")
-    pass_iff_empty(post, "missing", "context_writes_realized")
-    mv = assigned_value(pre, "missing")
-    ok = len(mv) == 1 and isinstance(mv[0], ast.ListComp) and dotted_name(mv[0].generators[0].iter) == "required_keys" and len(mv[0].generators[0].ifs) == 1 and ast.unparse(mv[0].generators[0].ifs[0]).replace(" ", "") == f"{ast.unparse(mv[0].generators[0].target)}notincontext_view"
-    R.check(ok, r_chk, ORCH, O + "_build_pre_checks", "missing = [k for k in required_keys if k not in context_view]", "pre-check `missing` is not (required keys) minus (keys of the pre snapshot)", pre.lineno)
-    mv = assigned_value(post, "missing")
-    ok = len(mv) == 1 and isinstance(mv[0], ast.ListComp) and "created" in ast.unparse(mv[0].generators[0].iter) and "updated" in ast.unparse(mv[0].generators[0].iter) and len(mv[0].generators[0].ifs) == 1 and "not in context_view" in ast.unparse(mv[0].generators[0].ifs[0])
-    R.check(ok, r_chk, ORCH, O + "_build_post_checks", "missing = [k for k in created + updated if k not in context_view]", "post-check `missing` is not (created ∪ updated) minus (keys of the post snapshot)", post.lineno)
-    # type check polarity
-    fails = [n for n in ast.walk(tce) if isinstance(n, ast.Assign) and isinstance(n.value, ast.Constant) and n.value.value == "FAIL"]
-    ok = False
-    for f in fails:
-        tests = [a.test for a in ancestors(f) if isinstance(a, ast.If)]
-        ok = ok or any(isinstance(t, ast.UnaryOp) and isinstance(t.op, ast.Not) and "isinstance(value" in ast.unparse(t.operand) and "any(" in ast.unparse(t.operand) for t in tests)
-    init_pass = any(isinstance(n, ast.Assign) and isinstance(n.value, ast.Constant) and n.value.value == "PASS" for n in walk_no_nested(tce))
-    R.check(ok and init_pass, r_chk, ORCH, O + "_type_check_entry", "FAIL iff not any(isinstance(value, t) ...)", "type check polarity changed", tce.lineno)
-    # which type on which data
-    for fn, getter, code in ((pre, "input_data_type", "input_type_ok"), (post, "output_data_type", "output_type_ok")):
-        src = ast.unparse(fn)
-        calls = [c for c in calls_in(fn) if call_attr(c) == "_type_check_entry"]
-        ok = len(calls) == 1 and isinstance(calls[0].args[0], ast.Constant) and calls[0].args[0].value == code and dotted_name(calls[0].args[2]) == "data"
-        exp = assigned_value(fn, dotted_name(calls[0].args[1]) or "") if calls else []
-        ok = ok and bool(exp) and getter in ast.unparse(exp[0]) and "node.processor" in ast.unparse(exp[0])
-        R.check(ok, r_chk, ORCH, qualname_of(fn), f"{code}: processor.{getter}() against data", f"{code} does not test the data against the processor's declared {getter}", fn.lineno)
-    # call sites: pre with pre snapshot and data before the node; post with post snapshot after reassigning data
-    g = CFG(ex, may_raise=lambda p: set())
+    # ------------------------------------------------------------------ roles in execute()
+    ex = repo.func(ORCH, EXECUTE)
+    g = CFG(ex)
     sub = next((n for n in g.nodes if n.ast is not None and n.kind == "stmt" and any(call_attr(c) == "_submit_and_wait" for c in calls_in(n.ast))), None)
     if sub is None:
         raise AnalysisError("execute(): node run statement not found")
+    subcall = next(c for c in calls_in(sub.ast) if call_attr(c) == "_submit_and_wait")
+    cb = subcall.args[0] if subcall.args else None
+    cbdef: Optional[ast.AST] = cb if isinstance(cb, ast.Lambda) else None
+    if isinstance(cb, ast.Name):
+        cbdef = next((n for n in ast.walk(ex) if isinstance(n, FuncNode) and n is not ex and n.name == cb.id), None)
+    hit = find1(cbdef, "_N_.process(Payload(_D_, _C_))", nested=True) if cbdef is not None else None
+    if hit is None:
+        raise AnalysisError("execute(): the node callable `<node>.process(Payload(<data>, <context>))` was not found")
+    NODE, DATA, CTX = name_of(hit[1], "_N_"), name_of(hit[1], "_D_"), name_of(hit[1], "_C_")
+    if not (NODE and DATA and CTX):
+        raise AnalysisError("execute(): node / data / context of the node callable are not plain variables")
+    loop = next((a for a in ancestors(sub.ast) if isinstance(a, ast.For)), None)
+    if loop is None:
+        raise AnalysisError("execute(): node loop not found")
+
+    def is_snapshot(e: Optional[ast.AST]) -> bool:
+        return isinstance(e, ast.Call) and call_attr(e) == "_context_snapshot" and len(e.args) == 1 and dotted_name(e.args[0]) == CTX
+
+    def use_node(c: ast.AST) -> Optional[int]:
+        ids = g.nodes_for(stmt_of(c))
+        return ids[0] if ids else None
+
+    def after_run(nid: Optional[int]) -> bool:
+        return nid is not None and nid != sub.id and g.dominated_by_node(nid, sub.id)
+
+    def in_handler(c: ast.AST) -> bool:
+        for a in ancestors(c):
+            if a is loop:
+                return False
+            if isinstance(a, ast.ExceptHandler):
+                return True
+        return False
+
+    loop_head = g.nodes_for(loop)
+    rebinds = [n for n in g.nodes if n.ast is not None and n.kind == "stmt" and isinstance(n.ast, (ast.Assign, ast.AnnAssign)) and any(isinstance(x, ast.Name) and x.id == CTX and isinstance(x.ctx, ast.Store) for x in ast.walk(n.ast)) and after_run(n.id) and not in_handler(n.ast)]
+
+    def before_run(nid: Optional[int]) -> bool:
+        """*nid* is executed in the part of an iteration that precedes the node run."""
+        if nid is None or not loop_head:
+            return False
+        return sub.id in g.reach([nid], blocked=set(loop_head)) and nid not in g.reach([t for t, _l in g.succ[sub.id]], blocked=set(loop_head))
+
+    def ctx_current(nid: int) -> bool:
+        """On the success path the context variable read at *nid* is the one bound from the node's result."""
+        if not rebinds:
+            return True
+        defs = reaching_defs(g, CTX, nid)
+        return bool(defs) and all(after_run(d.id) for d in defs)
+
+    def post_view(c: ast.Call, arg: Optional[ast.AST]) -> Tuple[bool, str]:
+        """Is *arg* (at call *c*) on every path a snapshot of the context taken after the node ran?"""
+        use = use_node(c)
+        if arg is None or use is None or not after_run(use):
+            return False, "the call is not after the node run"
+        if is_snapshot(arg):
+            return (True, "") if in_handler(c) or ctx_current(use) else (False, "the snapshot can be taken before the context returned by the node is bound")
+        nm = arg.id if isinstance(arg, ast.Name) else None
+        if nm is None:
+            return False, f"`{ast.unparse(arg)}` is not a context snapshot"
+        todo: List[Tuple[str, int]] = [(nm, use)]
+        seen_defs: Set[Tuple[str, int]] = set()
+        while todo:
+            name, at = todo.pop()
+            if (name, at) in seen_defs:
+                continue
+            seen_defs.add((name, at))
+            defs = reaching_defs(g, name, at)
+            if not defs:
+                return False, f"`{name}` has no definition reaching line {g.nodes[at].line}"
+            for d in defs:
+                a = d.ast
+                val = a.value if isinstance(a, (ast.Assign, ast.AnnAssign)) else None
+                plain = isinstance(a, ast.AnnAssign) or (isinstance(a, ast.Assign) and all(isinstance(t, ast.Name) for t in a.targets))
+                if plain and isinstance(val, ast.Name) and val.id != PRE and after_run(d.id):
+                    todo.append((val.id, d.id))  # an alias made after the run: look at what it names
+                    continue
+                if not (plain and is_snapshot(val)):
+                    return False, f"on some path `{name}` is `{d.text()[:70]}` (line {d.line}), not a fresh snapshot of the context"
+                if not after_run(d.id):
+                    return False, f"the snapshot `{d.text()[:70]}` (line {d.line}) can be taken before the node ran"
+                if not in_handler(a) and not ctx_current(d.id):
+                    return False, f"the snapshot (line {d.line}) can be taken before the context returned by the node is bound"
+        return True, ""
+
+    def output_data(c: ast.Call, arg: Optional[ast.AST]) -> bool:
+        if not (isinstance(arg, ast.Name) and arg.id == DATA):
+            return False
+        if in_handler(c):
+            return True  # a failed node has no output: the handler describes the data it holds
+        use = use_node(c)
+        defs = reaching_defs(g, DATA, use) if use is not None else []
+        return bool(defs) and all(after_run(d.id) for d in defs)
+
+    # the delta provider names the pre-node snapshot
+    comp_raw = repo.func(DELTA, "DeltaCollector.compute")
+    cpp = pos_params(comp_raw)
+    if len(cpp) < 2:
+        raise AnalysisError("DeltaCollector.compute: pre/post parameters vanished")
+    PRE_P, POST_P = cpp[0], cpp[1]
+    prov = [k.value for c in calls_in(ex) if call_attr(c) == "SERHooks" for k in c.keywords if k.arg == "context_delta_provider"]
+    prov_body = prov[0].body if prov and isinstance(prov[0], ast.Lambda) else None
+    if prov and isinstance(prov[0], ast.Name):
+        pdef = next((n for n in ast.walk(ex) if isinstance(n, FuncNode) and n is not ex and n.name == prov[0].id), None)
+        rv = [n.value for n in walk_no_nested(pdef) if isinstance(n, ast.Return)] if pdef is not None else []
+        prov_body = rv[0] if len(rv) == 1 else None
+    pb = bind_args(prov_body, comp_raw) if isinstance(prov_body, ast.Call) and call_attr(prov_body) == "compute" else {}
+    PRE = pb[PRE_P].id if isinstance(pb.get(PRE_P), ast.Name) else None
+    if PRE is None:
+        raise AnalysisError("execute(): the context delta provider `<collector>.compute(pre, post, ..)` with a named pre-node view was not found")
+
+    # ------------------------------------------------------------------ D2 provenance
+    r_prov = R.rule("C07-D2-parameter-provenance", "the SER labels every processing parameter with the channel the run-time chain picks: node config, else context (for every processing parameter name, exactly when the key is in the pre-node context), else the processor's declared default; later steps never overwrite earlier ones; values and labels reach processor.parameters / parameter_sources unswapped", 10)
+    RPQ = O + "_resolve_params_with_sources"
+    rp = nfunc(repo, ORCH, RPQ, keep=KEEP, loops=False)
+    rpp = pos_params(rp)
+    if len(rpp) < 3:
+        raise AnalysisError("_resolve_params_with_sources: parameters vanished")
+    NODE_P, CTX_P = rpp[0], rpp[2]
+    pair = [expand(rp, r.value) for r in walk_no_nested(rp) if isinstance(r, ast.Return)]
+    pair = [v for v in pair if isinstance(v, ast.Tuple) and len(v.elts) == 2 and all(isinstance(e, ast.Name) for e in v.elts)]
+    if not pair:
+        raise AnalysisError("_resolve_params_with_sources: `return <values>, <sources>` not found")
+    VAL, SRC = pair[0].elts[0].id, pair[0].elts[1].id
+
+    def sub_store(n: ast.AST, base: str) -> Optional[ast.Subscript]:
+        if isinstance(n, ast.Assign) and len(n.targets) == 1 and isinstance(n.targets[0], ast.Subscript) and dotted_name(n.targets[0].value) == base:
+            return n.targets[0]
+        return None
+
+    lab_stores = [n for n in walk_no_nested(rp) if sub_store(n, SRC) is not None]
+    mislabel = [n for n in walk_no_nested(rp) if sub_store(n, VAL) is not None and isinstance(n.value, ast.Constant) and n.value.value in ("node", "context", "default")]
+    R.check(bool(lab_stores) and all(isinstance(s.value, ast.Constant) and s.value.value in ("node", "context", "default") for s in lab_stores) and not mislabel, r_prov, ORCH, RPQ, "return <values>, <sources>: the second map receives the channel labels", "the returned pair is not (values, channel labels in {node, context, default})", rp.lineno)
+    top = {id(x): i for i, st in enumerate(rp.body) for x in ast.walk(st)}
+    order = sorted(((top.get(id(s), 0), s.lineno, s.value.value if isinstance(s.value, ast.Constant) else None, s) for s in lab_stores), key=lambda t: t[:2])
+    labels = [o[2] for o in order]
+    first_ctx = labels.index("context") if "context" in labels else -1
+    last_ctx = max((i for i, l in enumerate(labels) if l == "context"), default=-1)
+    first_def = min((i for i, l in enumerate(labels) if l == "default"), default=-1)
+    R.check("node" in labels and first_ctx > labels.index("node") and first_def > last_ctx >= 0, r_prov, ORCH, RPQ, "label order node, context, default", f"labels are not assigned in the order node, context, default (found {labels})", rp.lineno)
+    g_rp = CFG(rp)
+    default_from_table = False
+    for _i, _ln, lab, s in order:
+        if lab not in ("context", "default"):
+            continue
+        K = ast.unparse(sub_store(s, SRC).slice)
+        ids = g_rp.nodes_for(s)
+        conds = [txt(c) for c in dominating_conditions(g_rp, rp, ids[0])] if ids else []
+        a_first = {f"{K} not in {VAL}", f"{K} not in {SRC}", f"{K} not in {VAL}.keys()", f"{K} not in {SRC}.keys()"}
+        R.check(any(c in a_first for c in conds), r_prov, ORCH, RPQ, f"{lab} label [first writer wins]", f"the {lab} step can overwrite a label assigned by a higher-precedence channel (no `{K} not in {VAL}` guard dominates `{norm(s)}`)", s.lineno)
+        holder = next((lst for lst in (getattr(parent(s), f, None) for f in ("body", "orelse", "finalbody")) if isinstance(lst, list) and s in lst), [])
+        vstores = [n for n in holder if sub_store(n, VAL) is not None and ast.unparse(sub_store(n, VAL).slice) == K]
+        if lab == "context":
+            a_ctx = {f"{K} in {CTX_P}", f"{K} in {CTX_P}.keys()"}
+            R.check(any(c in a_ctx for c in conds), r_prov, ORCH, RPQ, "context label [present in context]", f"context label assigned without testing that the key is in the pre-node context (`{K} in {CTX_P}`)", s.lineno)
+            extra = [c for c in conds if c not in a_first and c not in a_ctx]
+            R.check(not extra, r_prov, ORCH, RPQ, "context label [exactly when present]", f"the context step is narrowed by `{' and '.join(extra)[:90]}`: the run-time chain takes every key that is in the context (whatever its value), so such a parameter is passed from the context but recorded with another source or not at all", s.lineno)
+            lp = next((a for a in ancestors(s) if isinstance(a, ast.For)), None)
+            covers = lp is not None and "get_processing_parameter_names" in closure_text(rp, lp.iter)
+            R.check(covers, r_prov, ORCH, RPQ, "context label [domain]", "the context step does not range over all processing parameter names: a defaulted parameter overridden by context is never labelled `context` (and is missing from processor.parameters)", s.lineno)
+            reads = {f"{CTX_P}[{K}]", f"{CTX_P}.get({K})"}
+            ok = bool(vstores) and all(any(ast.unparse(x) in reads for x in ast.walk(expand(rp, v.value))) for v in vstores)
+            R.check(ok, r_prov, ORCH, RPQ, "context value = <pre-node view>[k]", "the value recorded for a context-sourced parameter is not read from the pre-node context", s.lineno)
+        if lab == "default":
+            if any(f"self._parameter_defaults({NODE_P}.processor)" in closure_text(rp, v.value) for v in vstores):
+                default_from_table = True
+    R.check(default_from_table, r_prov, ORCH, RPQ, "defaults from _parameter_defaults(node.processor)", "no default step reads the processor's declared parameter table", rp.lineno)
+    # call site passes this node and its pre-node snapshot; the pair reaches the record unswapped
+    rcall = next((c for c in calls_in(ex) if call_attr(c) == "_resolve_params_with_sources"), None)
+    rb = bind_args(rcall, rp) if rcall is not None else {}
+    ok = dotted_name(rb.get(NODE_P)) == NODE and dotted_name(rb.get(CTX_P)) == PRE
+    R.check(ok, r_prov, ORCH, EXECUTE, "_resolve_params_with_sources(<node>, .., <pre-node view>, ..)", "provenance is not reconstructed from this node and its pre-node context", ex.lineno)
+    mk = nfunc(repo, ORCH, O + "_make_ser_record", keep=KEEP)
+    ser_calls = [c for c in calls_in(mk) if call_attr(c) == "SERRecord"]
+    proc = expand(mk, kwarg(ser_calls[0], "processor")) if ser_calls else None
+    p_par, p_src = dotted_name(dict_entry(proc, "parameters")), dotted_name(dict_entry(proc, "parameter_sources"))
+    _s_ex, every_ex = _def_table(ex)
+    for c in calls_in(ex):
+        if call_attr(c) == "_make_ser_record":
+            ok = bool(p_par) and bool(p_src) and p_par in all_params(mk) and p_src in all_params(mk)
+            for pname, pos in ((p_par, 0), (p_src, 1)):
+                v = kwarg(c, pname) if pname else None
+                defs = every_ex.get(v.id, []) if isinstance(v, ast.Name) else []
+                ok = ok and bool(defs) and all(isinstance(d, ast.Subscript) and isinstance(d.value, ast.Call) and call_attr(d.value) == "_resolve_params_with_sources" and is_const(d.slice, pos) for d in defs)
+            R.check(ok, r_prov, ORCH, EXECUTE, f"SER ({getattr(kwarg(c, 'status'), 'value', '?')}): processor.parameters / parameter_sources = the resolved (values, sources) pair", "processor.parameters / parameter_sources are not the (values, sources) pair reconstructed for this node", c.lineno)
+
+    # ------------------------------------------------------------------ D3 checks
+    r_chk = R.rule("C07-D3-check-polarity", "built-in checks report PASS exactly when the condition holds, on the right inputs (pre snapshot / input data, post snapshot taken after the node ran / output data)", 10)
+    pre = nfunc(repo, ORCH, O + "_build_pre_checks", keep=KEEP, loops=True)
+    post = nfunc(repo, ORCH, O + "_build_post_checks", keep=KEEP, loops=True)
+    tce = nfunc(repo, ORCH, O + "_type_check_entry", keep=KEEP)
+    xdl = repo.func(ORCH, O + "_extract_context_delta_lists")
+
+    def check_dict(fn: ast.AST, code: str) -> Optional[ast.AST]:
+        for n in ast.walk(fn):
+            if isinstance(n, ast.Dict) and is_const(dict_entry(n, "code"), code):
+                return n
+        return None
+
+    def pass_iff_empty(fn: ast.AST, code: str) -> Optional[ast.AST]:
+        """The expression M such that result is 'PASS' exactly when M is empty (None when the shape is different)."""
+        d = check_dict(fn, code)
+        res = expand(fn, dict_entry(d, "result")) if d is not None else None
+        if not isinstance(res, ast.IfExp) or not (isinstance(res.body, ast.Constant) and isinstance(res.orelse, ast.Constant)):
+            return None
+        t, a, b = res.test, res.body.value, res.orelse.value
+        neg = False
+        if isinstance(t, ast.UnaryOp) and isinstance(t.op, ast.Not):
+            t, neg = t.operand, True
+        elif isinstance(t, ast.Compare) and len(t.ops) == 1 and isinstance(t.ops[0], (ast.Eq, ast.NotEq)) and isinstance(t.left, ast.Call) and call_name(t.left) == "len" and is_const(t.comparators[0], 0):
+            t, neg = t.left.args[0], isinstance(t.ops[0], ast.Eq)
+        if (neg and (a, b) == ("PASS", "FAIL")) or (not neg and (a, b) == ("FAIL", "PASS")):
+            return t
+        return None
+
+    prep, postp = pos_params(pre), pos_params(post)
+    if len(prep) < 4 or len(postp) < 4:
+        raise AnalysisError("_build_pre_checks/_build_post_checks: parameters vanished")
+    m_pre = pass_iff_empty(pre, "required_keys_present")
+    R.check(m_pre is not None, r_chk, ORCH, O + "_build_pre_checks", "required_keys_present: PASS iff the missing list is empty", "required_keys_present does not report PASS exactly when the list of missing keys is empty", pre.lineno)
+    want = ("diff", ("K", "required"), ("K", "pre-view"))
+    got = kterm(m_pre, name_atoms({prep[3]: "required", prep[1]: "pre-view"})) if m_pre is not None else ("?", "")
+    R.check(got == want, r_chk, ORCH, O + "_build_pre_checks", "missing = required keys - keys of the context view", f"pre-check `missing` is not (required keys) minus (keys of the pre snapshot): it is {kshow(got)[:110]}", pre.lineno)
+    m_post = pass_iff_empty(post, "context_writes_realized")
+    R.check(m_post is not None, r_chk, ORCH, O + "_build_post_checks", "context_writes_realized: PASS iff the missing list is empty", "context_writes_realized does not report PASS exactly when the list of missing keys is empty", post.lineno)
+
+    def post_atom(e: ast.AST) -> Optional[str]:
+        if isinstance(e, ast.Name) and e.id == postp[1]:
+            return "post-view"
+        if isinstance(e, ast.Subscript) and isinstance(e.value, ast.Call) and call_attr(e.value) == "_extract_context_delta_lists" and len(e.value.args) == 1 and dotted_name(e.value.args[0]) == postp[3] and isinstance(e.slice, ast.Constant):
+            return {0: "created", 1: "updated"}.get(e.slice.value)
+        if isinstance(e, ast.Attribute) and dotted_name(e.value) == postp[3] and e.attr in ("created_keys", "updated_keys"):
+            return e.attr[:-5]
+        return None
+
+    want = ("diff", ("or", frozenset({("K", "created"), ("K", "updated")})), ("K", "post-view"))
+    got = kterm(m_post, post_atom) if m_post is not None else ("?", "")
+    R.check(got == want, r_chk, ORCH, O + "_build_post_checks", "missing = (created | updated) - keys of the context view", f"post-check `missing` is not (created ∪ updated) minus (keys of the post snapshot): it is {kshow(got)[:110]}", post.lineno)
+    xr = [r.value for r in walk_no_nested(xdl) if isinstance(r, ast.Return) and isinstance(r.value, ast.Tuple) and len(r.value.elts) == 2]
+    ok = bool(xr)
+    for tup in xr:
+        c0, c1 = closure_text(xdl, tup.elts[0]), closure_text(xdl, tup.elts[1])
+        ok = ok and "created" in c0 and "updated" not in c0 and "updated" in c1 and "created" not in c1
+    R.check(ok, r_chk, ORCH, O + "_extract_context_delta_lists", "returns (created keys, updated keys)", "the delta lists handed to the post-check are swapped or mixed", xdl.lineno)
+    # type check polarity: FAIL exactly when a type is declared and the value is not an instance of it
+    tp = pos_params(tce)
+    if len(tp) < 3:
+        raise AnalysisError("_type_check_entry: parameters vanished")
+    EXP_P, VAL_P = tp[1], tp[2]
+    ret_d = [expand(tce, r.value) for r in walk_no_nested(tce) if isinstance(r, ast.Return)]
+    res = dict_entry(ret_d[0], "result") if len(ret_d) == 1 else None
+    nexp = f"self._normalize_expected({EXP_P})"
+    want_conds = {f"{nexp} is not None", f"not any((isinstance({VAL_P}, _k0) for _k0 in {nexp}))"}
+    alt = {f"not isinstance({VAL_P}, {nexp})": f"not any((isinstance({VAL_P}, _k0) for _k0 in {nexp}))", f"{nexp}": f"{nexp} is not None"}
+    fail_conds: Optional[Set[str]] = None
+    if isinstance(res, ast.Name):
+        g_t = CFG(tce)
+        _s, every_t = _def_table(tce)
+        vals = every_t.get(res.id, [])
+        stores = [n for n in walk_no_nested(tce) if isinstance(n, (ast.Assign, ast.AnnAssign)) and any(isinstance(t, ast.Name) and t.id == res.id for t in (n.targets if isinstance(n, ast.Assign) else [n.target]))]
+        fails = [s for s in stores if is_const(s.value, "FAIL")]
+        passes = [s for s in stores if is_const(s.value, "PASS")]
+        if len(fails) == 1 and len(passes) == 1 and len(stores) == 2 and len(vals) == 2:
+            pc = dominating_conditions(g_t, tce, g_t.nodes_for(passes[0])[0])
+            if not pc and passes[0].lineno < fails[0].lineno:
+                fail_conds = {txt(c) for c in dominating_conditions(g_t, tce, g_t.nodes_for(fails[0])[0])}
+    elif isinstance(res, ast.IfExp) and isinstance(res.body, ast.Constant) and isinstance(res.orelse, ast.Constant):
+        if (res.body.value, res.orelse.value) == ("FAIL", "PASS"):
+            fail_conds = {txt(c) for c in conjuncts(res.test, True)}
+        elif (res.body.value, res.orelse.value) == ("PASS", "FAIL"):
+            fail_conds = {txt(c) for c in conjuncts(res.test, False)}
+    if fail_conds is not None:
+        fail_conds = {alt.get(c, c) for c in fail_conds}
+    R.check(fail_conds == want_conds, r_chk, ORCH, O + "_type_check_entry", "FAIL iff a type is declared and not any(isinstance(value, t))", f"type check does not report FAIL exactly when the value is not an instance of the declared type (FAIL under: {sorted(fail_conds) if fail_conds is not None else 'unrecognised shape'})"[:230], tce.lineno)
+    # which type on which data
+    for fn, fp, getter, code in ((pre, prep, "input_data_type", "input_type_ok"), (post, postp, "output_data_type", "output_type_ok")):
+        calls = [c for c in calls_in(fn) if call_attr(c) == "_type_check_entry"]
+        ok = len(calls) == 1
+        if ok:
+            b = bind_args(calls[0], tce)
+            ex_t = ast.unparse(expand(fn, b.get(EXP_P))) if b.get(EXP_P) is not None else ""
+            ok = is_const(b.get(tp[0]), code) and dotted_name(b.get(VAL_P)) == fp[2] and f"'{getter}'" in ex_t.replace('"', "'") and f"{fp[0]}.processor" in ex_t and "_data_type" not in ex_t.replace(getter, "")
+        R.check(ok, r_chk, ORCH, qualname_of(fn), f"{code}: processor.{getter}() against data", f"{code} does not test the data against the processor's declared {getter}", fn.lineno)
+    # call sites: pre with pre snapshot and data before the node; post with a snapshot taken after the node ran and the output data
     for c in calls_in(ex):
         if call_attr(c) == "_build_pre_checks":
-            n = g.nodes_for(stmt_of(c))
-            ok = dotted_name(c.args[1]) == "pre_ctx_view" and dotted_name(c.args[2]) == "data" and bool(n) and g.dominated_by_node(sub.id, n[0])
-            R.check(ok, r_chk, ORCH, EXECUTE, "pre-checks built before the node runs, on pre_ctx_view and input data", "pre-checks are not computed from the state before the node ran", c.lineno)
+            b = bind_args(c, pre)
+            use = use_node(c)
+            ok = dotted_name(b.get(prep[0])) == NODE and dotted_name(b.get(prep[1])) == PRE and dotted_name(b.get(prep[2])) == DATA and before_run(use)
+            R.check(ok, r_chk, ORCH, EXECUTE, "pre-checks built before the node runs, on the pre-node view and input data", "pre-checks are not computed from the state before the node ran", c.lineno)
         if call_attr(c) == "_build_post_checks":
-            n = g.nodes_for(stmt_of(c))
-            ok = dotted_name(c.args[1]) == "post_ctx_view" and dotted_name(c.args[2]) == "data" and bool(n) and (g.dominated_by_node(n[0], sub.id))
-            R.check(ok, r_chk, ORCH, EXECUTE, f"post-checks (line {c.lineno}) built after the node ran, on post_ctx_view and output data", "post-checks are not computed from the state after the node ran", c.lineno)
+            b = bind_args(c, post)
+            okv, why = post_view(c, b.get(postp[1]))
+            ok = dotted_name(b.get(postp[0])) == NODE and okv and output_data(c, b.get(postp[2]))
+            R.check(ok, r_chk, ORCH, EXECUTE, f"post-checks ({'failure handler' if in_handler(c) else 'success path'}) on a context snapshot taken after the node ran and the output data", "post-checks are not computed from the state after the node ran" + (f": {why}" if why else ""), c.lineno)
 
     # ------------------------------------------------------------------ D4 delta
-    r_d = R.rule("C07-D4-context-delta", "created = post - pre keys, updated = common keys whose values differ, both sorted; pre snapshot taken before and post snapshot after the node; snapshots are copies", 7)
-    comp = repo.func(DELTA, "DeltaCollector.compute")
-    cv = assigned_value(comp, "created")
-    ok = len(cv) == 1 and isinstance(cv[0], ast.BinOp) and isinstance(cv[0].op, ast.Sub) and dotted_name(cv[0].left) == "post_keys" and dotted_name(cv[0].right) == "pre_keys"
-    R.check(ok, r_d, DELTA, "DeltaCollector.compute", "created = post_keys - pre_keys", "created keys are not (post keys) minus (pre keys)", comp.lineno)
-    pk = assigned_value(comp, "pre_keys") + assigned_value(comp, "post_keys")
-    ok = len(pk) == 2 and "pre_ctx" in ast.unparse(pk[0]) and "post_ctx" in ast.unparse(pk[1])
-    R.check(ok, r_d, DELTA, "DeltaCollector.compute", "pre_keys/post_keys from pre_ctx/post_ctx", "key sets are not taken from the respective snapshots", comp.lineno)
-    mu = assigned_value(comp, "maybe_updated")
-    ok = len(mu) == 1 and isinstance(mu[0], ast.BinOp) and isinstance(mu[0].op, ast.BitAnd) and {dotted_name(mu[0].left), dotted_name(mu[0].right)} == {"pre_keys", "post_keys"}
-    R.check(ok, r_d, DELTA, "DeltaCollector.compute", "maybe_updated = post_keys & pre_keys", "updated candidates are not the common keys", comp.lineno)
-    uv = assigned_value(comp, "updated")
-    ok = len(uv) == 1 and isinstance(uv[0], ast.Call) and call_attr(uv[0]) == "sorted" and "maybe_updated" in ast.unparse(uv[0]) and "not _stable_equal(pre_ctx.get(k), post_ctx.get(k))" in ast.unparse(uv[0])
-    R.check(ok, r_d, DELTA, "DeltaCollector.compute", "updated = sorted(k in common if values differ)", "updated keys are not the common keys whose value changed (sorted)", comp.lineno)
-    rets = [n for n in walk_no_nested(comp) if isinstance(n, ast.Return) and isinstance(n.value, ast.Dict)]
-    ok = False
-    for r in rets:
-        d = {k.value: v for k, v in zip(r.value.keys, r.value.values) if isinstance(k, ast.Constant)}
-        ck, uk = d.get("created_keys", d.get("created")), d.get("updated_keys", d.get("updated"))
-        def from_(e, root):
-            if e is None:
-                return False
-            names = {x.id for x in ast.walk(e) if isinstance(x, ast.Name)}
-            for nm in list(names):
-                for v in assigned_value(comp, nm):
-                    names |= {x.id for x in ast.walk(v) if isinstance(x, ast.Name)}
-            return root in names
-        ok = from_(ck, "created") and from_(uk, "updated") and not from_(ck, "updated")
-    R.check(ok, r_d, DELTA, "DeltaCollector.compute", "returned created_keys/updated_keys are those sets", "the returned delta swaps or drops the computed sets", comp.lineno)
-    # execute: provider diff of pre snapshot (before) and a fresh post snapshot (after)
-    prov = [k.value for c in calls_in(ex) if call_attr(c) == "SERHooks" for k in c.keywords if k.arg == "context_delta_provider"]
-    ok = bool(prov) and isinstance(prov[0], ast.Lambda) and dotted_name(kwarg(prov[0].body, "pre_ctx")) == "pre_ctx_view" and isinstance(kwarg(prov[0].body, "post_ctx"), ast.Call) and call_attr(kwarg(prov[0].body, "post_ctx")) == "_context_snapshot"
-    R.check(ok, r_d, ORCH, EXECUTE, "delta = compute(pre_ctx=pre_ctx_view, post_ctx=snapshot(context) at call time)", "the delta is not the diff between the pre-node snapshot and the post-node context", ex.lineno)
-    pre_def = [n for n in g.nodes if n.ast is not None and isinstance(n.ast, ast.Assign) and dotted_name(n.ast.targets[0]) == "pre_ctx_view"]
-    ok = len(pre_def) == 1 and isinstance(pre_def[0].ast.value, ast.Call) and call_attr(pre_def[0].ast.value) == "_context_snapshot" and g.dominated_by_node(sub.id, pre_def[0].id) and any(isinstance(a, ast.For) for a in ancestors(pre_def[0].ast))
-    R.check(ok, r_d, ORCH, EXECUTE, "pre_ctx_view = snapshot(context) inside the loop, before the node runs", "the pre snapshot is not taken per node before it runs", ex.lineno)
+    r_d = R.rule("C07-D4-context-delta", "created = post - pre keys, updated = common keys whose values differ, both sorted; pre snapshot taken before and post snapshot after the node; snapshots are copies", 8)
+    CQ = "DeltaCollector.compute"
+    comp = nfunc(repo, DELTA, CQ, keep=KEEP, loops=True)
+    atoms = name_atoms({PRE_P: "pre", POST_P: "post"})
+    rets = [expand(comp, r.value) for r in walk_no_nested(comp) if isinstance(r, ast.Return)]
+    rd = rets[0] if len(rets) == 1 and isinstance(rets[0], ast.Dict) else None
+    ck = dict_entry(rd, "created_keys") or dict_entry(rd, "created") if rd is not None else None
+    uk = dict_entry(rd, "updated_keys") or dict_entry(rd, "updated") if rd is not None else None
+    if ck is None or uk is None:
+        raise AnalysisError("DeltaCollector.compute: returned mapping with created_keys / updated_keys not found")
+    got = kterm(ck, atoms)
+    R.check(got == ("diff", ("K", "post"), ("K", "pre")), r_d, DELTA, CQ, "created_keys = keys(post) - keys(pre)", f"created keys are not (post keys) minus (pre keys): they are {kshow(got)[:120]}", comp.lineno)
+    got = kterm(uk, atoms)
+    common = ("and", frozenset({("K", "pre"), ("K", "post")}))
+    differs = set()
+    for a, b in ((PRE_P, POST_P), (POST_P, PRE_P)):
+        for fa in ("{m}.get(_k)", "{m}[_k]"):
+            for fb in ("{m}.get(_k)", "{m}[_k]"):
+                differs.add(f"not _stable_equal({fa.format(m=a)}, {fb.format(m=b)})")
+                differs.add(f"{fa.format(m=a)} != {fb.format(m=b)}")
+    base_ok = got[0] == "filter" and got[1] == common
+    R.check(base_ok, r_d, DELTA, CQ, "updated_keys range over keys(post) & keys(pre)", f"updated candidates are not exactly the common keys: {kshow(got[1] if got[0] == 'filter' else got)[:120]}", comp.lineno)
+    R.check(got[0] == "filter" and len(got[2]) == 1 and next(iter(got[2])) in differs, r_d, DELTA, CQ, "updated_keys = common keys whose value differs", f"updated keys are not the common keys whose value changed: {kshow(got)[:140]}", comp.lineno)
+    R.check(is_sorted_expr(ck) and is_sorted_expr(uk), r_d, DELTA, CQ, "created_keys / updated_keys are sorted lists", "the returned key lists are not sorted", comp.lineno)
+    # execute: provider diffs the pre snapshot (before) with a fresh post snapshot (at call time, after the node)
+    recv = prov_body.func.value if isinstance(prov_body, ast.Call) and isinstance(prov_body.func, ast.Attribute) else None
+    recv_defs = every_ex.get(recv.id, []) if isinstance(recv, ast.Name) else []
+    ok = is_snapshot(pb.get(POST_P)) and bool(recv_defs) and all(isinstance(v, ast.Call) and call_attr(v) == "DeltaCollector" for v in recv_defs)
+    R.check(ok, r_d, ORCH, EXECUTE, "delta = DeltaCollector.compute(<pre-node view>, snapshot(context) at call time)", "the delta is not the diff between the pre-node snapshot and the post-node context", ex.lineno)
+    pcalls = [c for c in calls_in(ex) if call_attr(c) == "context_delta_provider"]
+    ok = bool(pcalls) and all(after_run(use_node(c)) and (in_handler(c) or ctx_current(use_node(c))) for c in pcalls)
+    R.check(ok, r_d, ORCH, EXECUTE, "the delta provider is called after the node ran (success path: after the returned context is bound)", "the context delta is computed before the node ran or from the context object the node did not return", ex.lineno)
+    pre_def = [n for n in g.nodes if n.ast is not None and n.kind == "stmt" and isinstance(n.ast, (ast.Assign, ast.AnnAssign)) and any(isinstance(x, ast.Name) and x.id == PRE and isinstance(x.ctx, ast.Store) for x in ast.walk(n.ast))]
+    ok = len(pre_def) == 1 and is_snapshot(getattr(pre_def[0].ast, "value", None)) and g.dominated_by_node(sub.id, pre_def[0].id) and before_run(pre_def[0].id) and any(a is loop for a in ancestors(pre_def[0].ast))
+    R.check(ok, r_d, ORCH, EXECUTE, "<pre-node view> = snapshot(context) inside the loop, before the node runs", "the pre snapshot is not taken per node before it runs", ex.lineno)
     snap = repo.func(ORCH, O + "_context_snapshot")
     rets = [n for n in walk_no_nested(snap) if isinstance(n, ast.Return)]
     ok = bool(rets) and all((isinstance(r.value, ast.Call) and call_attr(r.value) == "dict") or (isinstance(r.value, ast.Dict) and not r.value.keys) for r in rets)
     R.check(ok, r_d, ORCH, O + "_context_snapshot", "every return is dict(...) or {}", "a snapshot aliases the live context: pre and post views are the same object and the delta is always empty", snap.lineno)
 
     # ------------------------------------------------------------------ D5 digests
-    r_dig = R.rule("C07-D5-digests", "input and output data digests come from one helper on the value itself; pre/post context digests are computed from the respective snapshot passed to that call (never copied between entries)", 6)
+    r_dig = R.rule("C07-D5-digests", "input and output data digests come from one helper on the value itself; pre/post context digests are computed from the respective snapshot passed to that call (never copied between entries); the post snapshot is taken after the node ran", 8)
     ds = repo.func(ORCH, O + "_data_summary")
-    src = ast.unparse(ds)
-    R.check("sha256_bytes(serialize(data))" in src, r_dig, ORCH, O + "_data_summary", "sha256 = sha256_bytes(serialize(data))", "data digest is not the hash of the serialised value", ds.lineno)
+    dsp = pos_params(ds)
+    R.check(bool(dsp) and f"sha256_bytes(serialize({dsp[0]}))" in closure_text(ds, ast.Tuple(elts=[s.value for s in ast.walk(ds) if isinstance(s, ast.Assign) and any(isinstance(t, ast.Subscript) and is_const(t.slice, "sha256") for t in s.targets)], ctx=ast.Load())), r_dig, ORCH, O + "_data_summary", "sha256 = sha256_bytes(serialize(data))", "data digest is not the hash of the serialised value", ds.lineno)
     cs = repo.func(ORCH, O + "_context_summary")
-    R.check("sha256_bytes(canonical_json_bytes(context_view))" in ast.unparse(cs), r_dig, ORCH, O + "_context_summary", "sha256 = sha256_bytes(canonical_json_bytes(context_view))", "context digest is not the hash of the canonical JSON of the snapshot", cs.lineno)
+    csp = pos_params(cs)
+    R.check(bool(csp) and f"sha256_bytes(canonical_json_bytes({csp[0]}))" in closure_text(cs, ast.Tuple(elts=[s.value for s in ast.walk(cs) if isinstance(s, ast.Assign) and any(isinstance(t, ast.Subscript) and is_const(t.slice, "sha256") for t in s.targets)], ctx=ast.Load())), r_dig, ORCH, O + "_context_summary", "sha256 = sha256_bytes(canonical_json_bytes(context_view))", "context digest is not the hash of the canonical JSON of the snapshot", cs.lineno)
     cj = repo.func(UTILS, "canonical_json_bytes")
     dumps = [c for c in calls_in(cj) if call_name(c) == "json.dumps"]
     ok = bool(dumps) and isinstance(kwarg(dumps[0], "sort_keys"), ast.Constant) and kwarg(dumps[0], "sort_keys").value is True
     R.check(ok, r_dig, UTILS, "canonical_json_bytes", "json.dumps(..., sort_keys=True)", "canonical JSON depends on mapping order: equal content gives different digests", cj.lineno)
+    summ_fns = {}
     for helper, keys in (("_init_summaries", {"input_data": "_data_summary", "pre_context": "_context_summary"}), ("_augment_output_summaries", {"output_data": "_data_summary", "post_context": "_context_summary"})):
         f = repo.func(ORCH, O + helper)
+        summ_fns[helper] = f
         params = [a.arg for a in f.args.args]
         for key, producer in keys.items():
             stores = [n for n in ast.walk(f) if isinstance(n, ast.Assign) and any(isinstance(t, ast.Subscript) and isinstance(t.slice, ast.Constant) and t.slice.value == key for t in n.targets)]
@@ -302,29 +811,60 @@ def run(repo: Repo, R: Report) -> None:
             R.check(ok, r_dig, ORCH, O + helper, f"summaries[{key!r}] = {producer}(this call's value)", f"summaries[{key!r}] is not (always) recomputed from the value passed to this call: stale or copied digests", f.lineno)
     for c in calls_in(ex):
         if call_attr(c) == "_init_summaries":
-            R.check([dotted_name(a) for a in c.args[:2]] == ["data", "pre_ctx_view"], r_dig, ORCH, EXECUTE, "_init_summaries(data, pre_ctx_view, ...)", "input summaries are not taken from the input data and pre snapshot", c.lineno)
+            b = bind_args(c, summ_fns["_init_summaries"])
+            use = use_node(c)
+            ok = dotted_name(b.get("data")) == DATA and dotted_name(b.get("context_view")) == PRE and before_run(use)
+            R.check(ok, r_dig, ORCH, EXECUTE, "_init_summaries(<input data>, <pre-node view>, ...)", "input summaries are not taken from the input data and pre snapshot", c.lineno)
         if call_attr(c) == "_augment_output_summaries":
-            R.check([dotted_name(a) for a in c.args[1:3]] == ["data", "post_ctx_view"], r_dig, ORCH, EXECUTE, f"_augment_output_summaries(summaries, data, post_ctx_view, ...) (line {c.lineno})", "output summaries are not taken from the output data and post snapshot", c.lineno)
+            b = bind_args(c, summ_fns["_augment_output_summaries"])
+            okv, why = post_view(c, b.get("context_view"))
+            R.check(okv and output_data(c, b.get("data")), r_dig, ORCH, EXECUTE, f"_augment_output_summaries(.., <output data>, <post-node view>, ..) ({'failure handler' if in_handler(c) else 'success path'})", "output summaries are not taken from the output data and a context snapshot taken after the node ran" + (f": {why}" if why else ""), c.lineno)
 
     # ------------------------------------------------------------------ D6 durations, D7 ref
-    r_misc = R.rule("C07-D6D7-duration-and-ref", "wall_ms/cpu_ms = int((now - start) * 1000); processor.ref is module.qualname of node.processor's class for the node that ran", 4)
-    et = repo.func(ORCH, O + "_end_timing")
-    for var, clock, start in (("duration_ms", "time.time", "start_wall"), ("cpu_ms", "time.process_time", "start_cpu")):
-        vals = assigned_value(et, var)
-        ok = False
-        for v in vals:
-            subs = [b for b in ast.walk(v) if isinstance(b, ast.BinOp) and isinstance(b.op, ast.Sub)]
-            for b in subs:
-                lefts = assigned_value(et, b.left.id) if isinstance(b.left, ast.Name) else [b.left]
-                ok = ok or (bool(lefts) and all(isinstance(l, ast.Call) and call_name(l) == clock for l in lefts) and dotted_name(b.right) == start)
-        R.check(ok, r_misc, ORCH, O + "_end_timing", f"{var} = int(({clock}() - {start}) * 1000)", f"{var} is not end minus start", et.lineno)
-    mk = repo.func(ORCH, O + "_make_ser_record")
-    pc = assigned_value(mk, "proc_cls")
-    fq = assigned_value(mk, "fqcn")
-    ok = len(pc) == 1 and ast.unparse(pc[0]) == "node.processor.__class__" and len(fq) == 1 and "proc_cls.__module__" in ast.unparse(fq[0]) and "proc_cls.__qualname__" in ast.unparse(fq[0])
-    R.check(ok, r_misc, ORCH, O + "_make_ser_record", "fqcn = f'{node.processor.__class__.__module__}.{...__qualname__}'", "processor.ref does not name the class of the processor object that ran", mk.lineno)
-    loop = next((a for a in ancestors(sub.ast) if isinstance(a, ast.For)), None)
-    lv = loop.target.elts[1].id if loop is not None and isinstance(loop.target, ast.Tuple) and isinstance(loop.target.elts[1], ast.Name) else None
+    r_misc = R.rule("C07-D6D7-duration-and-ref", "wall_ms/cpu_ms = int((now - start) * 1000) with start read by _start_timing; processor.ref is module.qualname of node.processor's class for the node that ran", 9)
+    et = nfunc(repo, ORCH, O + "_end_timing", keep=KEEP)
+    st = nfunc(repo, ORCH, O + "_start_timing", keep=KEEP)
+    etp = pos_params(et)
+    et_ret = [r.value for r in walk_no_nested(et) if isinstance(r, ast.Return) and isinstance(r.value, ast.Tuple) and len(r.value.elts) == 3]
+    st_ret = [r.value for r in walk_no_nested(st) if isinstance(r, ast.Return) and isinstance(r.value, ast.Tuple) and len(r.value.elts) == 3]
+    if len(etp) < 2 or len(et_ret) != 1 or len(st_ret) != 1:
+        raise AnalysisError("_start_timing/_end_timing: 3-tuple returns or start parameters vanished")
+    for label, idx, clock, pidx in (("wall_ms", 1, "time.time", 0), ("cpu_ms", 2, "time.process_time", 1)):
+        v = expand(et, et_ret[0].elts[idx])
+        subs = [b for b in ast.walk(v) if isinstance(b, ast.BinOp) and isinstance(b.op, ast.Sub)]
+        ok = len(subs) == 1 and isinstance(subs[0].left, ast.Call) and call_name(subs[0].left) == clock and not subs[0].left.args and dotted_name(subs[0].right) == etp[pidx]
+        R.check(ok, r_misc, ORCH, O + "_end_timing", f"{label} = int(({clock}() - <start>) * 1000)", f"{label} is not end minus start of the matching clock", et.lineno)
+        sv = expand(st, st_ret[0].elts[pidx])
+        R.check(isinstance(sv, ast.Call) and call_name(sv) == clock and not sv.args, r_misc, ORCH, O + "_start_timing", f"start[{pidx}] = {clock}()", f"the start value for {label} is not read from {clock}()", st.lineno)
+
+    def unpack_of(v: Optional[ast.AST], helper: str, pos: int, exclusive: bool = True) -> bool:
+        defs = every_ex.get(v.id, []) if isinstance(v, ast.Name) else []
+        good = [d for d in defs if isinstance(d, ast.Subscript) and isinstance(d.value, ast.Call) and call_attr(d.value) == helper and is_const(d.slice, pos)]
+        inert = [d for d in defs if isinstance(d, ast.Constant)]
+        return bool(good) and len(good) + (0 if exclusive else len(inert)) == len(defs)
+
+    for c in calls_in(ex):
+        if call_attr(c) == "_end_timing":
+            b = bind_args(c, et)
+            ok = unpack_of(b.get(etp[0]), "_start_timing", 0, exclusive=False) and unpack_of(b.get(etp[1]), "_start_timing", 1, exclusive=False)
+            R.check(ok, r_misc, ORCH, EXECUTE, f"_end_timing(<start wall>, <start cpu>) from _start_timing() ({'failure handler' if in_handler(c) else 'success path'})", "durations are not measured from the values read by _start_timing()", c.lineno)
+        if call_attr(c) == "_make_ser_record":
+            t = kwarg(c, "timing")
+            ok = isinstance(t, ast.Dict) and unpack_of(dict_entry(t, "wall_ms"), "_end_timing", 1) and unpack_of(dict_entry(t, "cpu_ms"), "_end_timing", 2)
+            R.check(ok, r_misc, ORCH, EXECUTE, f"SER ({getattr(kwarg(c, 'status'), 'value', '?')}): timing.wall_ms / cpu_ms from _end_timing()", "SER durations do not come from _end_timing()", c.lineno)
+    node_kw = {kw.arg for c in calls_in(ex) if call_attr(c) == "_make_ser_record" for kw in c.keywords if dotted_name(kw.value) == NODE}
+    NK = next(iter(node_kw)) if len(node_kw) == 1 else None
+    ref = dict_entry(proc, "ref")
+    tags = expand(mk, kwarg(ser_calls[0], "tags")) if ser_calls else None
+
+    def names_class(e: Optional[ast.AST]) -> bool:
+        if e is None or NK is None:
+            return False
+        s = ast.unparse(e).replace(f"type({NK}.processor)", f"{NK}.processor.__class__")
+        return s in (f"f'{{{NK}.processor.__class__.__module__}}.{{{NK}.processor.__class__.__qualname__}}'", f"{NK}.processor.__class__.__module__ + '.' + {NK}.processor.__class__.__qualname__")
+
+    R.check(names_class(ref) and (dict_entry(tags, "node_ref") is None or names_class(dict_entry(tags, "node_ref"))), r_misc, ORCH, O + "_make_ser_record", "processor.ref = f'{node.processor.__class__.__module__}.{...__qualname__}'", "processor.ref does not name the class of the processor object that ran", mk.lineno)
+    R.check(NODE in {x.id for x in ast.walk(loop.target) if isinstance(x, ast.Name)}, r_misc, ORCH, EXECUTE, "the node that runs is the loop's current node", "the node callable does not run the loop's current node", loop.lineno)
     for c in calls_in(ex):
         if call_attr(c) == "_make_ser_record":
-            R.check(dotted_name(kwarg(c, "node")) == lv, r_misc, ORCH, EXECUTE, f"_make_ser_record(node={lv}) ({getattr(kwarg(c, 'status'), 'value', '?')})", "the SER is built for a different node object than the one that ran", c.lineno)
+            R.check(NK is not None and dotted_name(kwarg(c, NK)) == NODE, r_misc, ORCH, EXECUTE, f"_make_ser_record(node=<the node that ran>) ({getattr(kwarg(c, 'status'), 'value', '?')})", "the SER is built for a different node object than the one that ran", c.lineno)
